@@ -93,6 +93,87 @@ def accumBatch {α β γ : Type} (members : List (List α → List β)) (upd : N
 def accumOne {α β γ : Type} (fs : List (α → β)) (upd : Nat → γ → β → γ) (init : γ) (x : α) : γ :=
   fs.zipIdx.foldl (fun s (f, n) => upd n s (f x)) init
 
+
+/-! ## Label prediction with random tie-breaking (BOSS / cBOSS / TDE / CIF / DrCIF / ROCKET `predict`) -/
+
+/-- positions attaining the maximum of a probability row (`np.flatnonzero(prob == prob.max())`) -/
+def argmaxSet (p : List Rat) : List Nat :=
+  match p with
+  | [] => []
+  | a :: t =>
+    let m := t.foldl (fun acc x => if acc < x then x else acc) a
+    (List.range p.length).filter (fun i => p.getD i 0 == m)
+
+/-- `[classes[rng.choice(flatnonzero(prob == prob.max()))] for prob in predict_proba(X)]`: ONE random
+stream is consumed instance after instance; `draws i` is the i-th draw of that stream -/
+def predictTie (draws : Nat → Nat) (P : List (List Rat)) : List Nat :=
+  P.zipIdx.map (fun (p, i) => let t := argmaxSet p; t.getD (draws i % t.length) 0)
+
+/-- first maximum (`np.argmax`), the tie rule of TSF / RISE / STSF / column ensembles -/
+def predictFirstMax (P : List (List Rat)) : List Nat := P.map (fun p => (argmaxSet p).headD 0)
+
+/-- rows whose prediction depends on the random stream are masked in the correspondence -/
+def maskTies {α : Type} (ties : List Nat) (mask : α) (B : List α) : List α :=
+  B.zipIdx.map (fun (b, i) => if ties.contains i then mask else b)
+
+
+/-! ## Output container of a feature union (known finding: Tabularizer follows the input container) -/
+
+inductive OutKind | frame | array
+  deriving DecidableEq, Repr
+
+/-- what a member of a feature union returns: always a DataFrame, or — `Tabularizer.transform`,
+`if isinstance(X, pd.DataFrame): from_nested_to_2d_array(X) else: from_3d_numpy_to_2d_array(X)` — a
+DataFrame for nested input and an ndarray for 3-D array input -/
+inductive MemberOut | alwaysFrame | followsInput
+  deriving DecidableEq, Repr
+
+def MemberOut.kind (asArr : Bool) : MemberOut → OutKind
+  | .alwaysFrame => .frame
+  | .followsInput => if asArr then .array else .frame
+
+/-- `FeatureUnion._hstack`: `pd.concat(Xs, axis=1)` as soon as one output is a DataFrame (which raises
+TypeError when another one is an ndarray), `np.hstack` otherwise -/
+def unionHstack (kinds : List OutKind) : Except Err Unit :=
+  if kinds.contains .frame && kinds.contains .array then .error .type else .ok ()
+
+def unionAccepts (members : List MemberOut) (asArr : Bool) : Except Err Unit :=
+  unionHstack (members.map (MemberOut.kind asArr))
+
+
+/-! ## `pd.concat([A, B], axis=1)` matches rows by index LABEL (known finding: feature unions) -/
+
+def lookupLabel {β : Type} (l : Int) : List (Int × β) → Option β
+  | [] => none
+  | (k, v) :: t => if k == l then some v else lookupLabel l t
+
+def nodupLabels : List Int → Bool
+  | [] => true
+  | a :: t => !t.contains a && nodupLabels t
+
+/-- equal label lists: the frames are glued side by side in order; otherwise both must have unique
+labels (else pandas raises InvalidIndexError) and the result is indexed by A's labels followed by the
+labels only B has, a missing side being `none` (NaN) -/
+def concat2 {β : Type} (A B : List (Int × β)) : Except Err (List (Option β × Option β)) :=
+  let la := A.map (·.1)
+  let lb := B.map (·.1)
+  if la == lb then .ok (List.zipWith (fun a b => (some a.2, some b.2)) A B)
+  else if !(nodupLabels la && nodupLabels lb) then .error .other
+  else .ok ((la ++ lb.filter (fun l => !la.contains l)).map (fun l => (lookupLabel l A, lookupLabel l B)))
+
+/-- fresh labels `0..n-1` (a transformer that builds a new DataFrame) -/
+def freshFrom {β : Type} (k : Nat) : List β → List (Int × β)
+  | [] => []
+  | r :: t => ((k : Int), r) :: freshFrom (k + 1) t
+
+def freshLabels {β : Type} (rows : List β) : List (Int × β) := freshFrom 0 rows
+
+/-- `FeatureUnion([("a", A), ("b", B)]).transform(X)` where A returns a frame with fresh labels and B
+keeps the labels of X (SeriesToPrimitivesRowTransformer next to Tabularizer) -/
+def unionFreshKept {α β : Type} (fa fb : α → β) (labels : List Int) (X : List α) :
+    Except Err (List (Option β × Option β)) :=
+  concat2 (freshLabels (X.map fa)) (labels.zip (X.map fb))
+
 /-! ## Pipelines -/
 
 /-- `Pipeline([...steps..., final])` at apply time: `Xt = step.transform(Xt)` in order, then the
